@@ -6,7 +6,7 @@ wt=/tmp/seedre
 cd $wt && git checkout -q --detach $(git -C /repo rev-parse HEAD) && git reset -q --hard && git clean -qfd
 ids=${@:-$(ls /verif/seeded)}
 for id in $ids; do
-  P=${id:0:3}
+  P=$(python3 -c "import json,re; m=json.load(open('/verif/seeded/$id/meta.json')); print(re.search(r'check (C\\d\\d)', m.get('check_run','')+' check ${id:0:3}').group(1))")
   cd $wt && git reset -q --hard
   if git apply /verif/seeded/$id/patch.diff 2>/dev/null || git apply --3way /verif/seeded/$id/patch.diff 2>/dev/null; then ap=applies; else ap=DOES-NOT-APPLY; git reset -q --hard; echo "$id $ap" >> /verif/run/seed_regress.log; continue; fi
   PYTHONPATH=$wt /venv/bin/python /verif/seeded/$id/demo.py >/dev/null 2>&1; drc=$?
